@@ -27,8 +27,10 @@ def iodir():
 
 
 def new_path(fmt):
+    """Three file names per process and extension, reused in turn: documents are written over earlier
+    ones and read again from the same path, as a user who saves a file under the same name does."""
     _counter[0] += 1
-    return os.path.join(iodir(), 'doc%d%s' % (_counter[0], EXT[fmt]))
+    return os.path.join(iodir(), 'doc%d%s' % (_counter[0] % 3, EXT[fmt]))
 
 
 def sha(b):
